@@ -20,7 +20,7 @@ for attempt in 1 2 3; do
   if timeout 900 go test -vet=off -count=1 -timeout 400s ./... >/tmp/trial_suite_$N.log 2>&1; then SUITE=true; break; fi
   bad=$(grep -o "^--- FAIL: [A-Za-z_]*\|running tests:\|Test[A-Za-z_]*/[A-Za-z_]* ([0-9]*m" /tmp/trial_suite_$N.log | tr '\n' ' ')
   FLAKES="$FLAKES attempt$attempt: $bad;"
-  grep -q "TestSaveLoadCache\|rescheduleDrainBuffers\|TestCache_GetWithSuppressedLoad" /tmp/trial_suite_$N.log || break
+  grep -q "TestSaveLoadCache\|rescheduleDrainBuffers\|TestCache_GetWithSuppressedLoad\|TestCache_Eviction\|TestCache_SetExpiresAfter" /tmp/trial_suite_$N.log || break
 done
 cp -r $D $WT/$(basename $D) 2>/dev/null
 bash $D/demo.sh >/tmp/trial_demo_$N.log 2>&1 && DW=false || DW=true
